@@ -120,5 +120,21 @@ def fdwraAz (p : FdwraParams α) (s : HvAz α) : Except String (Nat × HvAz α) 
   | .error e => .error e
   | .ok (k, hs) => .ok (k, { s with hvsrs := hs })
 
+/-- `frequency_domain_window_rejection(azimuthal, ..., find_peaks_kwargs=…)`: every azimuth is brought to the requested range by its OWN comparison with
+its stored range (an azimuth analysed on its own before may hold another range), then rejected independently (`fdwraAz p s = fdwraAzKw p false s`) -/
+def fdwraAzKw (p : FdwraParams α) (kwEmpty : Bool) (s : HvAz α) : Except String (Nat × HvAz α) :=
+  let rec go : List (HvTrad α) → Except String (Nat × List (HvTrad α))
+    | [] => .ok (0, [])
+    | h :: hs =>
+      match fdwraTradKw p kwEmpty h with
+      | .error e => .error e
+      | .ok (k, h', _) =>
+        match go hs with
+        | .error e => .error e
+        | .ok (k', hs') => .ok (if k' < k then k else k', h' :: hs')
+  match go s.hvsrs with
+  | .error e => .error e
+  | .ok (k, hs) => .ok (k, { s with hvsrs := hs })
+
 end
 end HV
